@@ -33,7 +33,10 @@ int cgreen_pipe_open(int pipes[2])
     pipe_nonblock_result = fcntl(pipes[1], F_SETFL, O_NONBLOCK);
 
     if (pipe_nonblock_result != 0) {
-        return pipe_open_result;
+        /* a blocking write end would hang a test with more results than the pipe holds */
+        close(pipes[0]);
+        close(pipes[1]);
+        return pipe_nonblock_result;
     }
 
     return 0;
